@@ -19,7 +19,7 @@ from .loop import SimLoop
 from .net import ServerCrashed, ServerNode
 from .ref import jsonrpc as R
 from .service import BODIES, EXC_CLASS_NAMES, MARKER, NODATA, SIGNATURES, VALIDATED, ProtoFailure, Service
-from .stack import ensure_loop
+from .stack import ensure_loop, fresh_loop
 from .world import World
 
 METHOD_MODELS = {name: R.MethodModel(SIGNATURES[name], BODIES[name], VALIDATED[name][1] if name in VALIDATED else None)
@@ -58,11 +58,16 @@ def gen_element(ch: Choices, tok: str, id_: Any, notification: bool) -> Tuple[Di
             del el['params']
     elif kind == 'novalidate':
         # binds to the signature but does not satisfy the schema attached to the method
-        el = {'jsonrpc': '2.0', 'method': 'typed'}
-        el['params'] = ch.choice([
-            [tok, 'x'], [tok, 1.5], [tok, None], [tok, True], [tok, 1, 'zzz'], {'tok': tok, 'n': '1'},
-            {'tok': tok, 'n': 1, 'label': 'c'}, [tok, [1]], {'tok': tok, 'n': {}}, [tok, 2, 7],
-        ], 'el.novalidate')
+        if ch.flag(1, 3, 'el.novalidate.default'):
+            el = {'jsonrpc': '2.0', 'method': 'typed_default'}
+            el['params'] = ch.choice([[tok, 'x'], [tok, 1], [tok, None], {'tok': tok, 'flag': 'yes'}, [tok, []]],
+                                     'el.novalidate')
+        else:
+            el = {'jsonrpc': '2.0', 'method': 'typed'}
+            el['params'] = ch.choice([
+                [tok, 'x'], [tok, 1.5], [tok, None], [tok, True], [tok, 1, 'zzz'], {'tok': tok, 'n': '1'},
+                {'tok': tok, 'n': 1, 'label': 'c'}, [tok, [1]], {'tok': tok, 'n': {}}, [tok, 2, 7],
+            ], 'el.novalidate')
     else:
         el = {'jsonrpc': '2.0', 'method': 'echo', 'params': [tok, 'never']}
         member = ch.choice(['jsonrpc', 'method', 'params', 'id'], 'el.invalid.member')
@@ -286,6 +291,8 @@ def draw_config(ch: Choices, doc_len: int = 1, middlewares: bool = False, handle
         'max_batch_size': ch.choice([None, None, 0, 1, doc_len, max(1, doc_len - 1), doc_len + 1], 'srv.max_batch'),
         'middlewares': [], 'handlers': {}, 'mw_plain': [],
     }
+    if is_async:
+        cfg['concurrent_batch'] = not ch.flag(1, 4, 'srv.sequential_batch')
     if middlewares:
         cfg['middlewares'] = [ch.choice(MW_KINDS, 'srv.mw.kind') for _ in range(ch.draw(4, 'srv.mw.n'))]
         cfg['mw_plain'] = [ch.flag(1, 3, 'srv.mw.plain') for _ in cfg['middlewares']]
@@ -336,6 +343,8 @@ class ServerUnderTest:
             table[None if key == 'none' else int(key)] = [make_error_handler(w, node, hid, kind, is_async)
                                                            for hid, kind in hs]
         kwargs: Dict[str, Any] = dict(middlewares=mws, error_handlers=table, max_batch_size=cfg['max_batch_size'])
+        if is_async and 'concurrent_batch' in cfg:
+            kwargs['concurrent_batch'] = cfg['concurrent_batch']
         if extra_kwargs:
             kwargs.update(extra_kwargs)
         cls = pjrpc.server.AsyncDispatcher if is_async else pjrpc.server.Dispatcher
@@ -344,6 +353,12 @@ class ServerUnderTest:
         self.context = context
         self.server = ServerNode(w, self.dispatcher, self.loop, node=node,
                                  context_factory=(lambda: context) if context is not None else None)
+
+    def new_event_loop(self) -> None:
+        """From now on this (asynchronous) dispatcher is driven by a new event loop."""
+        if self.loop is not None:
+            self.loop = fresh_loop(self.w)
+            self.server.loop = self.loop
 
     def deliver(self, text: str) -> Tuple[str, Any]:
         """('ret', reply) | ('raise', exc)"""
